@@ -45,37 +45,8 @@ fn nest_q_boxed_of_retry_poisonable_ref_try_lock() {
 	assert!(ThreadKey::get().is_some(), "C03_key_obtainable_after");
 }}
 
-vharness! {
-#[kani::unwind(7)]
-fn nest_t_retry_of_boxed_and_mut_ref_lock() {
-	// shape: Retry( ( Boxed([RW;2]), &mut RW ) ) -> 3 leaves, read and write
-	let mut third = new_rw(2, 22);
-	rraw(&third).other.set(any_other_rw());
-	let third_state: *const VState = rraw(&third);
-	let data = (BoxedLockCollection::new(<[RW; 2] as Make<2>>::make([20, 21])), &mut third);
-	data.0.child().set_any_others();
-	let c = RetryingLockCollection::new(data);
-	let ch = c.child();
-	let st = [rraw(&ch.0.child()[0]), rraw(&ch.0.child()[1]), unsafe { &*third_state }];
-	let write: bool = kani::any();
-	let key = ThreadKey::get().unwrap();
-	if write {
-		let g = c.lock(key);
-		assert!(all_mine_x(&st) && w().held == 3, "C04_lock_returns_with_every_leaf_held_exclusively_once");
-		assert!(*g.0[0] == 20 && *g.0[1] == 21 && *g.1 == 22, "C02_guard_position_routes_to_declared_member");
-		drop(g);
-	} else {
-		let g = c.read(key);
-		assert!(all_mine_s(&st, &[false; 3]) && w().held == 3, "C04_read_returns_with_every_leaf_held_shared_once");
-		assert!(*g.0[0] == 20 && *g.1 == 22, "C02_guard_position_routes_to_declared_member");
-		drop(g);
-	}
-	assert!(!w().blocked_while_holding, "C09_never_waits_for_a_lock_while_holding_another");
-	assert!(w().held == 0 && all_balanced(&st), "C05_every_hold_released_once_in_its_mode");
-	assert!(ThreadKey::get().is_some(), "C03_key_obtainable_after");
-	kani::cover!(write, "write");
-	kani::cover!(!write, "read");
-}}
+// (the blocking acquisition through Retry((Boxed([RW;2]), &mut RW)) needs > 12 GB in CBMC and is not instantiated;
+// the non-blocking one below covers the shape, the retry loop itself is covered by c09_* and col_*_retry_*)
 
 vharness! {
 #[kani::unwind(7)]
